@@ -26,8 +26,12 @@ CONSTANTS MaxN, Kinds, SFlaws,
           MaxSteps, \* bound on the number of grammar steps from a base
           DUP      \* TRUE: the grammar may also duplicate a sub-tree (used for sampling repeated groups)
 Leaf == Kinds
-TL == {"on", "off", "dur", "del", "uq"}          \* carry topLevelTagGroup
-Time == {"on", "off", "dur", "del"}               \* temporal keys (extra TEMPORAL_TAG_ERROR when misplaced)
+\* "del2" / "dur2": a Delay / Duration tag with ANOTHER value than "del" / "dur" - the same tag as far as the group rules go,
+\* a different one as far as repetition goes
+DelK == {"del", "del2"}
+DurK == {"dur", "dur2"}
+TL == {"on", "off", "uq"} \cup DelK \cup DurK    \* carry topLevelTagGroup
+Time == {"on", "off"} \cup DelK \cup DurK         \* temporal keys (extra TEMPORAL_TAG_ERROR when misplaced)
 Temporal == {"on", "off"}                          \* Onset / Inset / Offset
 
 VARIABLES n, par, kind, sflaw, steps
@@ -99,7 +103,7 @@ GroupErr == {<<"TAG_GROUP_ERROR", k>> : k \in Misplaced}
 MultiTopBad(g) == LET S == {k \in TagKids(g) : kind[k] \in TL} IN
                   /\ Cardinality(S) > 1
                   /\ ~(/\ Cardinality(S) = 2
-                       /\ \E a, b \in S : a # b /\ kind[a] = "del" /\ kind[b] \in {"on", "off", "dur"})
+                       /\ \E a, b \in S : a # b /\ kind[a] \in DelK /\ kind[b] \in {"on", "off"} \cup DurK)
 MultiTop == {<<"TAG_GROUP_ERROR", g>> : g \in {x \in 1..n : TopGroup(x) /\ MultiTopBad(x)}}
 \* unique tags
 Unique == IF Cardinality({k \in 1..n : kind[k] = "uq"}) > 1 THEN {<<"TAG_NOT_UNIQUE", 0>>} ELSE {}
@@ -109,7 +113,7 @@ Repeated == {<<"TAG_EXPRESSION_REPEATED", a>> : a \in {x \in 1..n : \E y \in 1..
 AnchorOf(g) == CHOOSE k \in TagKids(g) : kind[k] \in Temporal /\ \A j \in TagKids(g) : kind[j] \in Temporal => k <= j
 OnsetBad(g) == LET a == AnchorOf(g)
                    defs == {k \in TagKids(g) : kind[k] = "def"}
-                   others == Kids(g) \ ({a} \cup {k \in TagKids(g) : kind[k] = "del"})
+                   others == Kids(g) \ ({a} \cup {k \in TagKids(g) : kind[k] \in DelK})
                IN \/ Cardinality(defs) # 1
                   \/ Cardinality(others \ defs) > (IF kind[a] = "off" THEN 0 ELSE 1)
                   \/ \E k \in others \ defs : ~IsGroup(k)
@@ -118,7 +122,7 @@ OnsetErr == {<<"TEMPORAL_TAG_ERROR", g>> : g \in {x \in 1..n : TopGroup(x) /\ (\
 DurBad(g) == \/ \E k \in TagKids(g) : kind[k] \notin TL
              \/ Cardinality(GroupKids(g)) # 1
 IsDurGroup(x) == /\ TopGroup(x)
-                 /\ (\E k \in TagKids(x) : kind[k] \in {"dur", "del"})
+                 /\ (\E k \in TagKids(x) : kind[k] \in DurK \cup DelK)
                  /\ ~(\E j \in TagKids(x) : kind[j] \in Temporal)
 DurErr == {<<"TEMPORAL_TAG_ERROR", g>> : g \in {x \in 1..n : IsDurGroup(x) /\ DurBad(x)}}
 FullViol == EmptyGroup \cup GroupErr \cup MultiTop \cup Unique \cup Repeated \cup OnsetErr \cup DurErr
